@@ -23,5 +23,6 @@ CHECK = {
                     "Read on a closed response body fails with a non-EOF error (net/http HTTP/1, HTTP/2 bodies, *os.File)",
                     "the server is honest: 200 carries the file, 206 carries the file from the requested offset, the file does not change between requests",
                     "consumers recognise the end of a stream by err == io.EOF (io.ReadAll, io.Copy, bufio, gzip, tar)"],
-    "text": "Machine-checked for all data, server kinds, fault scripts and consumer operation sequences: bytes handed to the consumer = data.take progress (delivered_prefix), every request carries no Range header at progress 0 and exactly bytes=progress- otherwise (range_header_exact), every Read hands out exactly the next bytes (no_dup_no_skip), a clean EOF only at progress = data.length (eof_complete, under the recorded truncation assumption, shown necessary), a Read whose last attempt failed returns an error and a Read never sends more requests than the schedule has retries (exhausted_is_error); all over the regenerated schedule / status codes. The model is tied to transport.go by regenerated facts (schedule, status tests, Range format, statement lists of RoundTrip/reset/Read/Close, caller status tests) and by differential correspondence on the real transport. Exercised only: FetchPackage and fetchRepositoryIndex end to end.",
+    "text": "Machine-checked for all data, server kinds, fault scripts and consumer operation sequences (reads of any size, Close, reading on after errors): bytes handed to the consumer = data.take progress (delivered_prefix); every request carries no Range header at progress 0 and exactly bytes=progress- otherwise (range_header_exact); every Read hands out exactly the next bytes (no_dup_no_skip); a clean EOF only when everything was delivered (eof_complete, under the recorded truncation assumption, whose necessity is proved by eof_complete_needs_assumption); a Read whose last attempt failed returns an error (exhausted_is_error) and sends at most two requests from any state (requests_bounded); trace_accepted: the trace of the Impl is accepted by the same Spec checker the driver evaluates on the real code's trace. All over the regenerated schedule / status codes (generated_good). The model is tied to transport.go by regenerated facts (schedule, status tests, Range format / guard, discard call, statement lists of RoundTrip/reset/Read/Close, caller status tests) and by differential correspondence of the full event trace on the real transport. Exercised only (oracle in Go): FetchPackage and fetchRepositoryIndex end to end on the same fault scripts. No defect found on the pinned tree.",
+    "budget_thorough": 1500,
 }
